@@ -78,6 +78,10 @@ categories = Flags.all().to_set()
 
 
 def xdist_running(config):
+    if hasattr(config, "workerinput"):
+        # xdist workers do not know the number of processes
+        return True
+
     return (
         hasattr(config.option, "numprocesses")
         and config.option.numprocesses is not None
